@@ -20,19 +20,30 @@ Arguments RErr {A} e.
 
 Inductive nslot := NTable | NNewTable | NColumn | NNewColumn.
 
+(* which of the names are quoted_name objects, and with which quote flag *)
+Record flags := mkFlags { f_schema : qflag; f_table : qflag; f_newtable : qflag; f_column : qflag; f_newcolumn : qflag }.
+Definition no_flags : flags := mkFlags Plain Plain Plain Plain Plain.
+
 Record env := mkEnv {
   e_schema : option str;
   e_table : str;
   e_newtable : str;
-  e_column : str;
+  e_column : str;             (* the column — or, for DROP CHECK, the constraint — name *)
   e_newcolumn : str;
-  e_opq : list str            (* opaque texts produced by SQLAlchemy, by position *)
+  e_opq : list str;           (* opaque texts produced by SQLAlchemy, by position *)
+  e_flags : flags
 }.
 
 Definition slot (e:env) (n:nslot) : str :=
   match n with
   | NTable => e_table e | NNewTable => e_newtable e | NColumn => e_column e | NNewColumn => e_newcolumn e
   end.
+Definition flag (e:env) (n:nslot) : qflag :=
+  match n with
+  | NTable => f_table (e_flags e) | NNewTable => f_newtable (e_flags e)
+  | NColumn => f_column (e_flags e) | NNewColumn => f_newcolumn (e_flags e)
+  end.
+Definition sflag (e:env) : qflag := f_schema (e_flags e).
 Definition opq (e:env) (i:nat) : str := nth i (e_opq e) [].
 Definition schema_if (e:env) (b:bool) : option str := if b then e_schema e else None.
 
@@ -46,7 +57,8 @@ Inductive ipiece :=
 Inductive piece :=
 | Kw (t:str)
 | Tbl (n:nslot) (sch:bool)    (* format_table_name(compiler, <n>, element.schema if sch else None) *)
-| Col (n:nslot)               (* format_column_name(compiler, <n>) *)
+| TblSA (n:nslot)             (* compiler.preparer.format_table(table): SQLAlchemy's, the schema is one identifier *)
+| Col (n:nslot)               (* format_column_name(compiler, <n>) / preparer.quote(<n>) *)
 | StrLit (ps : list (bool * ipiece))   (* '...' ; the bool says: wrapped in _sql_literal *)
 | RawName (n:nslot)
 | Opaque (i:nat)
@@ -58,8 +70,8 @@ Definition schema_dot (e:env) : str :=
 Definition render_ipiece (q:qspec) (e:env) (p:ipiece) : option str :=
   match p with
   | IKw t => Some t
-  | ITbl n sch => format_table_name q (slot e n) (schema_if e sch)
-  | ICol n => format_column_name q (slot e n)
+  | ITbl n sch => format_table_name q (flag e n) (slot e n) (sflag e) (schema_if e sch)
+  | ICol n => format_column_name q (flag e n) (slot e n)
   | IRaw n => Some (slot e n)
   | IRawSchemaDot => Some (schema_dot e)
   end.
@@ -75,8 +87,9 @@ Definition of_opt (o:option str) : res str := match o with Some s => ROk s | Non
 Definition render_piece (q:qspec) (e:env) (p:piece) : res str :=
   match p with
   | Kw t => ROk t
-  | Tbl n sch => of_opt (format_table_name q (slot e n) (schema_if e sch))
-  | Col n => of_opt (format_column_name q (slot e n))
+  | Tbl n sch => of_opt (format_table_name q (flag e n) (slot e n) (sflag e) (schema_if e sch))
+  | TblSA n => of_opt (format_table_sa q (flag e n) (slot e n) (sflag e) (e_schema e))
+  | Col n => of_opt (format_column_name q (flag e n) (slot e n))
   | StrLit ps => match map_opt (render_inner q e) ps with
                  | Some l => ROk (39 :: concat l ++ [39])
                  | None => RErr EIndex
@@ -100,6 +113,9 @@ Fixpoint render (q:qspec) (e:env) (v:list piece) : res str :=
 
 (* ------------------------------------------------------------------ constructs *)
 
+(* SQLAlchemy constructs the operations hand to _exec for comments (impl.create_table_comment & co) *)
+Inductive fkind := FSetTableComment | FDropTableComment | FSetColumnComment.
+
 Inductive construct :=
 | CRenameTable
 | CAddColumn (has_const:bool)
@@ -111,6 +127,11 @@ Inductive construct :=
 | CComputedDefault
 | CIdentityDrop                       (* IdentityColumnDefault, default is None *)
 | CIdentityAdd                        (* ... default given, existing_server_default is None *)
+| CIdentityAlter (steps:list (option bool))
+     (* ... both given: one entry per attribute of sorted(diff): Some b = "always" (identity.always = b), None = an option *)
+| CMysqlDropCheck                     (* schema.DropConstraint(CheckConstraint) through mysql._mysql_drop_constraint *)
+| CMysqlDropGeneric                   (* schema.DropConstraint(<a bare Constraint>) : NotImplementedError *)
+| CForeign (k:fkind)                  (* a construct compiled entirely by SQLAlchemy: its text is one opaque token *)
 | CColumnComment (has_comment:bool)
 | CPgColumnType (has_using:bool)
 | CMysqlAlterDefault (has_default:bool)
@@ -158,6 +179,15 @@ Definition comment_on_column (tail : list piece) :=
 Definition pg_column_comment (has_comment:bool) := comment_on_column (if has_comment then [Opaque 0] else [K "NULL"]).
 Definition pg_identity_drop := alter_table ++ [K " "; K "ALTER COLUMN "; Col NColumn; K " "; K "DROP IDENTITY"].
 Definition pg_identity_add := alter_table ++ [K " "; K "ALTER COLUMN "; Col NColumn; K " "; K "ADD "; Opaque 0].
+(* for attr in sorted(diff): "SET GENERATED %s " / "SET %s " % compiler.get_identity_options(<Identity with that attr>) *)
+Fixpoint pg_identity_steps (i:nat) (l:list (option bool)) : list piece :=
+  match l with
+  | [] => []
+  | Some b :: r => K (if b then "SET GENERATED ALWAYS " else "SET GENERATED BY DEFAULT ") :: pg_identity_steps i r
+  | None :: r => K "SET " :: Opaque i :: K " " :: pg_identity_steps (Datatypes.S i) r
+  end.
+Definition pg_identity_alter (l:list (option bool)) :=
+  alter_table ++ [K " "; K "ALTER COLUMN "; Col NColumn; K " "] ++ pg_identity_steps 0 l.
 
 (* oracle.py *)
 Definition ora_add_column := alter_table ++ [K " "; K "ADD "; Col NColumn; K " "; Opaque 0].
@@ -185,6 +215,10 @@ Definition mysql_modify (n a d c : bool) :=
   alter_table ++ [K " MODIFY "; Col NColumn; K " "] ++ mysql_colspec n a d c.
 Definition mysql_change (n a d c : bool) :=
   alter_table ++ [K " CHANGE "; Col NColumn; K " "; Col NNewColumn; K " "] ++ mysql_colspec n a d c.
+
+(* _mysql_drop_constraint, CheckConstraint branch; NColumn is the constraint name (preparer.format_constraint) *)
+Definition mysql_drop_check (mariadb:bool) :=
+  [K "ALTER TABLE "; TblSA NTable; K (if mariadb then " DROP CONSTRAINT " else " DROP CHECK "); Col NColumn].
 
 (* mssql.py *)
 Definition mssql_add_column := alter_table ++ [K " "; K "ADD "; Col NColumn; K " "; Opaque 0].
@@ -225,8 +259,16 @@ Definition mssql_exec_drop_fk :=
 
 
 (* @compiles dispatch: the dialect-specific registration wins over the default one *)
-Definition visitor (d:dialect) (c:construct) : list piece :=
+Definition visitor0 (d:dialect) (c:construct) : list piece :=
   match c, d with
+  | CIdentityAlter l, Postgresql => pg_identity_alter l
+  | CIdentityAlter _, Oracle => ora_identity_set
+  | CIdentityAlter _, _ => [Fail ECompile]
+  | CMysqlDropCheck, Mysql => mysql_drop_check false
+  | CMysqlDropCheck, _ => unsupported          (* elsewhere DropConstraint is compiled by SQLAlchemy itself *)
+  | CMysqlDropGeneric, Mysql => mysql_individual
+  | CMysqlDropGeneric, _ => unsupported
+  | CForeign _, _ => [Opaque 0]
   | CRenameTable, Mysql => base_rename_table
   | CRenameTable, Mssql => mssql_rename_table
   | CRenameTable, _ => noschema_rename_table
@@ -274,15 +316,24 @@ Definition visitor (d:dialect) (c:construct) : list piece :=
   | CMssqlDropFK, _ => unsupported
   end.
 
+(* MariaDBImpl is MySQLImpl; every mysql.py visitor is registered for "mysql" and "mariadb" *)
+Definition family (d:dialect) : dialect := match d with Mariadb => Mysql | x => x end.
+Definition visitor (d:dialect) (c:construct) : list piece :=
+  match c, d with
+  | CMysqlDropCheck, Mariadb => mysql_drop_check true     (* compiler.dialect.is_mariadb *)
+  | _, _ => visitor0 (family d) c
+  end.
+
 Definition bools : list bool := [true; false].
 Definition all_constructs : list construct :=
   [CRenameTable; CDropColumn; CColumnType; CColumnName; CComputedDefault; CIdentityDrop; CIdentityAdd;
-   CMssqlDropConstraint; CMssqlDropFK]
+   CMssqlDropConstraint; CMssqlDropFK; CMysqlDropCheck; CMysqlDropGeneric;
+   CForeign FSetTableComment; CForeign FDropTableComment; CForeign FSetColumnComment]
   ++ map CAddColumn bools ++ map CColumnNullable bools ++ map CColumnDefault bools ++ map CColumnComment bools
   ++ map CPgColumnType bools ++ map CMysqlAlterDefault bools
   ++ flat_map (fun n => flat_map (fun a => flat_map (fun d => flat_map (fun c =>
        [CMysqlModify n a d c; CMysqlChange n a d c]) bools) bools) bools) bools.
-Definition all_dialects : list dialect := [Sqlite; Postgresql; Mysql; Mssql; Oracle].
+Definition all_dialects : list dialect := [Sqlite; Postgresql; Mysql; Mssql; Oracle; Mariadb].
 Definition all_pairs : list (dialect * construct) :=
   flat_map (fun d => map (fun c => (d, c)) all_constructs) all_dialects.
 
